@@ -53,8 +53,13 @@ func specialEval(w *world, rep *vevid.Report, clause, scenario, history string, 
 		exp := m.eval(q)
 		got, err := w.query(q, metric)
 		var bad []string
+		timedOut := false
 		if err != nil {
-			if len(exp) > 0 {
+			if isTimeout(err) {
+				w.timeouts++
+				timedOut = true
+				bad = append(bad, fmt.Sprintf("query did not complete within %v: %v", vbox.QueryTimeout, err))
+			} else if len(exp) > 0 {
 				bad = append(bad, fmt.Sprintf("query failed: %v", err))
 			}
 		} else {
@@ -80,13 +85,24 @@ func specialEval(w *world, rep *vevid.Report, clause, scenario, history string, 
 			rep.Violate(vevid.Violation{Clause: clause, Scenario: scenario, Site: "scripted", Replay: Case{Special: "all"},
 				Detail: fmt.Sprintf("%s\nreference: %s\nlindb:     %s\nhistory: %s\nquery: %s", strings.Join(bad, "; "), renderExp(exp), renderGot(got), history, q.sql("M"))})
 		}
+		if timedOut {
+			return // the rest of the menu would only wait for more timeouts
+		}
 	}
+}
+
+func isTimeout(err error) bool {
+	msg := err.Error()
+	return strings.Contains(msg, "timeout") || strings.Contains(msg, "no response from leaves") || strings.Contains(msg, "deadline exceeded")
 }
 
 // sameTick: see above. Both writes are verified to fall between two readings of the fast clock that are equal; if the
 // scheduler never lets that happen the scenario is counted as skipped (never a violation).
 func sameTick(w *world, rep *vevid.Report) {
 	for _, after := range []string{"", "F", "R", "F w", "R w"} {
+		if w.timeouts >= 3 {
+			return
+		}
 		scenario := "same-tick/" + strings.ReplaceAll(after, " ", "")
 		ok := false
 		for try := 0; try < 40 && !ok; try++ {
@@ -154,6 +170,9 @@ func sameTick(w *world, rep *vevid.Report) {
 // emptyMetaFlush: see above.
 func emptyMetaFlush(w *world, rep *vevid.Report) {
 	for _, after := range []string{"R", "F R"} {
+		if w.timeouts >= 3 {
+			return
+		}
 		// fresh in-memory metadata stores
 		if err := w.box.ReopenEngine(); err != nil {
 			vevid.Fatal("special reopen: %v", err)
